@@ -44,7 +44,7 @@ func TextRewrites(r *Rendered) []Rewrite {
 	var out []Rewrite
 	for i, l := range r.Lines {
 		if l.Kind == LDirective || l.Kind == LParen {
-			for _, c := range []string{" # c", " # a # b # c", "#", " ## x"} {
+			for _, c := range []string{" # c", " # a # b # c", "#", " ## x", " ##", "##"} {
 				if l.Kind == LDirective && r.Lines[i].Span.Node.Kw == "Description" {
 					continue // the rest of a Description line... keep clear of free text
 				}
@@ -64,7 +64,7 @@ func TextRewrites(r *Rendered) []Rewrite {
 			}
 		}
 		if eligibleBetween(r, i) {
-			for _, c := range []string{"# own line", "  # indented comment", "# x ## y # z"} {
+			for _, c := range []string{"# own line", "  # indented comment", "# x ## y # z", "##", "#", "## two"} {
 				out = append(out, Rewrite{"comment-line", i, c})
 			}
 			out = append(out, Rewrite{"block-comment", i, "###\nblock # comment\n###"})
